@@ -32,6 +32,14 @@ def load_engine(name):
     return importlib.import_module("engines." + name)
 
 
+def engine_of(plan, default):
+    """A plan names the engine that executes it (an engine may hand some runs to another one)."""
+    name = plan.get("engine")
+    if name and name != getattr(default, "ENGINE", None):
+        return load_engine(name)
+    return default
+
+
 def _child(engine, plan, wfd, trace):
     try:
         if not os.environ.get("VERIF_DEBUG"):
@@ -135,7 +143,7 @@ def cmd_batch(jobfile):
             break
         seed = util.mix(base, prop, i)
         plan = engine.generate(seed, prop, tier, i)
-        res = run_forked(engine, plan)
+        res = run_forked(engine_of(plan, engine), plan)
         st = res.get("status", "error")
         agg["runs"] += 1
         agg[st] = agg.get(st, 0) + 1
@@ -177,7 +185,7 @@ def cmd_serve(engine_name):
         if not line:
             continue
         req = json.loads(line)
-        res = run_forked(engine, req["plan"], trace=req.get("trace", False))
+        res = run_forked(engine_of(req["plan"], engine), req["plan"], trace=req.get("trace", False))
         out.write(util.cjson(res) + "\n")
         out.flush()
     return 0
